@@ -112,21 +112,23 @@ def runCase (j : Json) : Except String Json := do
           else pure oi.toNat
         pure (some (Sum.inl (Edit.num ({ kind, obj, n } : MontePyVerif.Renumber.Op))))
       | _ => throw "op")
-    let (p, outs, mids) := ops.foldl (fun (acc : Prob × List String × List Json) op =>
+    -- the model's history with writes (Model/Renumber.lean: stepW / runW): state and files written so far
+    let (pw, outs) := ops.foldl (fun (acc : (Prob × List WFile) × List String) op =>
       match op with
-      | none => (acc.1, "ok" :: acc.2.1, fileJ (write acc.1) :: acc.2.2)
-      | some op =>
-        let r := match op with
-          | Sum.inl e => stepE acc.1 e
-          | Sum.inr k => reappendLast acc.1 k
-        (r.1, outName r.2 :: acc.2.1, acc.2.2)) (p0, [], [])
+      | none => (stepW acc.1 none, "ok" :: acc.2)
+      | some (Sum.inl e) => (stepW acc.1 (some e), outName (stepE acc.1.1 e).2 :: acc.2)
+      | some (Sum.inr k) =>
+        let r := reappendLast acc.1.1 k
+        ((r.1, acc.1.2), outName r.2 :: acc.2)) ((p0, []), [])
+    let p := pw.1
+    let mids := pw.2.map fileJ
     -- per object in the order of the original cards (add_cell_children_to_problem may have sorted the collections)
     let nums (k : Kind) : Json := toJson ((p0.coll k).objs.map (p.coll k).num)
     return Json.mkObj [
       ("link", "ok"), ("wellFormed", toJson wf.wellFormedB), ("outs", toJson outs.reverse),
       ("numbers", Json.mkObj [("cell", nums .cell), ("surf", nums .surf), ("mat", nums .mat), ("tr", nums .tr),
         ("univ", Json.arr (p0.univs.objs.map (fun u => Json.arr #[toJson (p0.univs.num u), toJson (p.univs.num u)])).toArray)]),
-      ("mids", Json.arr mids.reverse.toArray),
+      ("mids", Json.arr mids.toArray),
       ("file", fileJ (write p))]
 
 partial def loop (h : IO.FS.Stream) : IO Unit := do
